@@ -16,7 +16,7 @@ OUTSIDE = ["EPA / MPR penetration (C07/C08) under motion", "Boolean tests (their
            "returned points (only scalar outputs are compared: optima are not unique on the degenerate placements the sweeps pass through)", "smooth colliders", "rounding"]
 BOUNDS = {"quick": "per distance function 1 base pair x 3 sweeps x {swap (where the signature allows), 2 rigid motions from the 24 signed permutations x dyadic translations up to 1e3, uniform scale s symbolic in [1e-2,1e2]}; GJK: 4 polytope pairs x 2 sweeps x {swap, motion}",
           "thorough": "all corpus pairs and sweeps"}
-WALL_BUDGET = {"quick": 420, "thorough": 3000}
+WALL_BUDGET = {"quick": 420, "thorough": 900}
 EXPECTED_EXCEPTIONS = ()
 
 MOTIONS = [(R0[7], [0.5, -0.25, 2.0]), (R0[13], [-1000.0, 250.0, 0.125]), (R0[22], [3.0, 3.0, -3.0])]
@@ -134,10 +134,10 @@ def make(family, args):
 
 def jobs(tier, seed):
     J = []
-    sweeps = [DC.SWEEPS_Q[0], DC.SWEEPS_Q[3], DC.SWEEPS_Q[5]] if tier == "quick" else DC.SWEEPS_Q
+    sweeps = [DC.SWEEPS_Q[0], DC.SWEEPS_Q[3], DC.SWEEPS_Q[5], DC.SWEEPS_Q[9]] if tier == "quick" else DC.SWEEPS_Q
     for fn, (ka, kb, _) in DC.FUNCS.items():
         As, Bs = DC.CORPUS[ka], DC.CORPUS[kb]
-        pairs = [(As[-1], Bs[0])] if tier == "quick" else [(a, b) for a in As for b in Bs]
+        pairs = [(As[-1], Bs[-1])] if tier == "quick" else [(a, b) for a in As for b in Bs]     # the non-cubic / tilted corpus entries
         for (a, b) in pairs:
             for si, sw in enumerate(sweeps):
                 rels = [{"kind": "motion", "m": si % 3}]
